@@ -28,6 +28,14 @@ def all_units():
         up = json.load(open(bp)).get("unit_props", {})
         for u in units:
             u.props = tuple(sorted(set(u.props) | set(up.get(u.name, []))))
+    # The pool properties C01-C15 are proved from ONE invariant over ALL segments of pool.py (+ helpers, register): a
+    # change anywhere in that code can undermine any of them (e.g. a slot that is not released breaks "no invocation is
+    # lost", C04).  Every pool property therefore runs the whole pool cone; failures of obligations tagged with another
+    # property are reported as supporting-obligation violations (check.py).
+    pool_props = tuple(f"C{i:02d}" for i in range(1, 16))
+    for u in units:
+        if u.name.startswith(("pool.", "helpers.star_function", "helpers.execute_optional", "group_register.")):
+            u.props = tuple(sorted(set(u.props) | set(pool_props)))
     return units
 
 
